@@ -101,11 +101,14 @@ def oracle(e, idx):
         m = c if m is None or c > m else m
         hw.append(m)
     dd = [1 - c / h for c, h in zip(cum, hw)]
-    # duration: strictly under water; a point equal to an earlier (not immediately preceding-run) peak is ambiguous
+    # duration: strictly under water.  A point that comes back to exactly the previous peak after an under-water spell
+    # is ambiguous (the library re-accumulates the curve in floating point: such a point may come out an ulp below the
+    # peak) - and so is every following point that stays exactly there: the upper reading runs on until the curve
+    # exceeds that peak
     lo = hi = cur_lo = cur_hi = 0
     for i, x in enumerate(dd):
         under = x > 0
-        tie = (not under) and i > 0 and cum[i] != cum[i - 1] and any(cum[i] == y for y in cum[:i])
+        tie = (not under) and i > 0 and cur_hi > 0 and cum[i] == hw[i - 1]
         cur_lo = cur_lo + 1 if under else 0
         cur_hi = cur_hi + 1 if (under or tie) else 0
         lo, hi = max(lo, cur_lo), max(hi, cur_hi)
